@@ -207,7 +207,7 @@ def run_check(cid, tier, cfg):
         odir, binp, _, _ = unit_cmd(cid, u)
         for k in range(u['shards']):
             out = os.path.join(odir, 'out.%d.json' % k)
-            cmd = [binp, '--tier', tier, '--shard', '%d/%d' % (k, u['shards']), '--out', out, '--seed', str(seed),
+            cmd = u.get('wrap', []) + [binp, '--tier', tier, '--shard', '%d/%d' % (k, u['shards']), '--out', out, '--seed', str(seed),
                    '--deadline', str(deadline), '--variant', u['name']] + u['args']
             env = dict(SAN_ENV) if u['mode'] == 'san' else {}
             env.update(u['env'])
@@ -395,7 +395,7 @@ def replay(path, cfgs):
     outs = []
     for rep in range(2):
         out = os.path.join(odir, 'replay.%d.json' % rep)
-        cmd = [binp, '--tier', tier, '--case', str(rp['idx']), '--shard', rp.get('shard', '0/1'), '--out', out, '--variant', u['name'], '--desc', rp['desc']] + u['args']
+        cmd = u.get('wrap', []) + [binp, '--tier', tier, '--case', str(rp['idx']), '--shard', rp.get('shard', '0/1'), '--out', out, '--variant', u['name'], '--desc', rp['desc']] + u['args']
         env = dict(SAN_ENV) if u['mode'] == 'san' else {}
         env.update(u['env'])
         r = run_proc(cmd, env, 600, out)
